@@ -10,7 +10,7 @@ def classify(rec, v):
 
 def run(out, tier):
     rendercheck.run_focus(
-        out, "C05", "paint", tier, 1200, 20000,
+        out, "C05", "paint", tier, 1200, 12000,
         "documents drawn by TLC -simulate from Build.tla (Focus=paint: fill, fill-opacity, opacity, "
         "fill-rule, display as attribute and/or style declaration, conflicting attribute+style, on "
         "shapes, nested groups, root and use, overlapping catalogue geometry); non-trivial = the "
